@@ -304,7 +304,7 @@ def claims_bfs(run: core.Run, cases: list[dict], clauses: set[str], label: str, 
             run.log(f'{label} depth {depth}: {len(frontier)} states expanded, {len(nxt)} new, '
                     f'{run.total.transitions - t_before} transitions, {run.total.violation_count} violating observations, {time.time() - t0:.1f}s')
             frontier = nxt
-            if run.total.errors or (run.total.violations and depth >= 6):
+            if run.total.errors or depth >= 40:
                 break
     if capped:
         run.caps_hit.append(f'{label}: per-document state cap {max_states_per_doc} dropped {capped} successor states')
